@@ -327,3 +327,68 @@ Print Assumptions C11_cells_have_announced_type.
 
 Example C11_other_accounts_is_a_list : forall r, exists l, pcol_other_accounts r = CStrList l.
 Proof. intros r. eexists. reflexivity. Qed.
+
+(* ---- tie by translation: the SOURCE of the row iterators (query_env.EntriesTable.__iter__, PostingsTable.__iter__,
+   sources.beancount.Table.__iter__) and of Row.__init__, translated into PyMini on every run
+   (Gen/SrcLedgerTables.v), computes the model's iterators, for every ledger.
+   [enc_directive] / [enc_posting] encode Model/Ledger.v records as objects (Model/PrimsLedger.v);
+   a yielded Row context is the object [row_obj rowid entry posting] as it is AT THE YIELD (the generator reuses one
+   mutable Row: a consumer that finishes with a row before asking for the next sees exactly this);
+   self.prepare() is an opaque callable returning the entries (its own tie is C13_source_prepare). ---- *)
+From Verif Require Import Model.PyMini Model.PrimsLedger Gen.SrcLedgerTables Proofs.SrcLedgerTables.
+
+(* Row(entries, options): the class attributes overlaid by what __init__ assigns = the primitive's initial Row *)
+Theorem C11_source_row_init : forall (call_ref : nat -> list pv -> pv) (ext : string -> list pv -> PyMini.res pv)
+    (es o : pv),
+  call_method call_ref (prims_ledger SrcLedgerTables.refs ext) src_row_init row_class_attrs [es; o] = Ok (row0, PNone) /\
+  prims_ledger SrcLedgerTables.refs ext ROW [es; o] = Ok (obj ROW row0).
+Proof. exact (fun cr ext es o => conj (row_init_src cr ext es o) eq_refl). Qed.
+Print Assumptions C11_source_row_init.
+
+Theorem C11_source_entries_iter : forall (call_ref : nat -> list pv -> pv) (ext : string -> list pv -> PyMini.res pv)
+    (kp : nat) (o : pv) (l : ledger),
+  call_ref kp [] = enc_ledger l ->
+  let flds := [("prepare", PRef kp); ("options", o)]%string in
+  call_method call_ref (prims_ledger SrcLedgerTables.refs ext) src_entries_iter flds [] =
+  Ok (flds, PList (map (fun r => row_obj (er_rowid r) (enc_directive (er_entry r)) PNone) (entries_iter l))).
+Proof. exact entries_iter_src. Qed.
+Print Assumptions C11_source_entries_iter.
+
+Theorem C11_source_postings_iter : forall (call_ref : nat -> list pv -> pv) (ext : string -> list pv -> PyMini.res pv)
+    (kp : nat) (o : pv) (l : ledger),
+  call_ref kp [] = enc_ledger l ->
+  let flds := [("prepare", PRef kp); ("options", o)]%string in
+  call_method call_ref (prims_ledger SrcLedgerTables.refs ext) src_postings_iter flds [] =
+  Ok (flds, PList (map (fun r => row_obj (pr_rowid r) (enc_directive (pr_entry r)) (enc_posting (pr_posting r)))
+                       (postings_iter l))).
+Proof. exact postings_iter_src. Qed.
+Print Assumptions C11_source_postings_iter.
+
+(* the typed directive tables: datatype is the class of kind k *)
+Theorem C11_source_typed_iter : forall (call_ref : nat -> list pv -> pv) (ext : string -> list pv -> PyMini.res pv)
+    (k : dkind) (l : ledger),
+  let flds := [("datatype", cls_value (kind_class k)); ("entries", enc_ledger l)]%string in
+  call_method call_ref (prims_ledger SrcLedgerTables.refs ext) src_typed_iter flds [] =
+  Ok (flds, PList (map enc_directive (typed_iter k l))).
+Proof. exact typed_iter_src. Qed.
+Print Assumptions C11_source_typed_iter.
+
+(* every table class of sources/beancount.py that iterates with Table.__iter__ (generated census) has one of the
+   twelve directive classes as its datatype *)
+Theorem C11_source_typed_tables :
+  forallb (fun nc => existsb (fun k => String.eqb (snd nc) (kind_class k)) all_kinds) typed_tables = true.
+Proof. exact typed_tables_kinds. Qed.
+Print Assumptions C11_source_typed_tables.
+
+(* the translated generator run on a two-directive ledger *)
+Example C11_source_postings_example :
+  let t := Transaction [1] [] 10 None None None [] []
+             [mkposting [65] (mkamount (mkdec false 1 0) [85]) None None None None;
+              mkposting [66] (mkamount (mkdec true 1 0) [85]) None None None None] in
+  let l := [Open [2] [] 5 [65] None None; t] in
+  call_method (fun _ _ => enc_ledger l) (prims_ledger SrcLedgerTables.refs (fun _ _ => Stuck)) src_postings_iter
+    [("prepare", PRef 7); ("options", PNone)]%string []
+  = Ok ([("prepare", PRef 7); ("options", PNone)]%string,
+        PList [row_obj 1 (enc_directive t) (enc_posting (mkposting [65] (mkamount (mkdec false 1 0) [85]) None None None None));
+               row_obj 2 (enc_directive t) (enc_posting (mkposting [66] (mkamount (mkdec true 1 0) [85]) None None None None))]).
+Proof. vm_compute. reflexivity. Qed.
